@@ -25,6 +25,10 @@ type CliWorld struct {
 	started  chan struct{}
 	Cli      *turn.Client
 	cliSock  *UDPSock
+	stream   bool     // the client speaks TURN over a stream (its Conn is a STUNConn over simnet TCP)
+	cliConn  *TCPConn // client end of that stream
+	srvConn  *TCPConn // scripted server end
+	srvIn    []byte
 	cliAddr  *net.UDPAddr
 	SrvAddr  *net.UDPAddr
 	srvSock  *UDPSock
@@ -267,11 +271,33 @@ func (w *CliWorld) start() {
 	}
 	ss.SetHandler(w.onServerDatagram)
 	w.srvSock = ss
-	cs, err := w.Net.ListenUDP("client", "c1", w.cliAddr.IP, w.cliAddr.Port)
-	if err != nil {
-		Fatalf("client sock: %v", err)
+	var cs net.PacketConn
+	if cfg.Extra["stream"] == 1 {
+		// one established stream between the client and the scripted server
+		w.stream = true
+		cc, sc := w.Net.newConnPair("client", "scriptsrv", &net.TCPAddr{IP: w.cliAddr.IP, Port: w.cliAddr.Port}, &net.TCPAddr{IP: w.SrvAddr.IP, Port: w.SrvAddr.Port})
+		w.cliConn, w.srvConn = cc, sc
+		sc.SetScripted(func(_ *TCPConn, b []byte) {
+			w.srvIn = append(w.srvIn, b...)
+			for {
+				n, ok := refFrameLen(w.srvIn)
+				if !ok || n > len(w.srvIn) {
+					return
+				}
+				frame := append([]byte(nil), w.srvIn[:n]...)
+				w.srvIn = w.srvIn[n:]
+				w.onServerDatagram(&Dgram{From: w.cliAddr, To: w.SrvAddr, Payload: frame})
+			}
+		}, nil)
+		cs = turn.NewSTUNConn(cc)
+	} else {
+		us, err := w.Net.ListenUDP("client", "c1", w.cliAddr.IP, w.cliAddr.Port)
+		if err != nil {
+			Fatalf("client sock: %v", err)
+		}
+		w.cliSock = us
+		cs = us
 	}
-	w.cliSock = cs
 	rto := time.Duration(cfg.RTOms) * time.Millisecond
 	w.lib(func() {
 		c, err := turn.NewClient(&turn.ClientConfig{
@@ -292,6 +318,16 @@ func (w *CliWorld) start() {
 		w.mu.Unlock()
 		close(w.started)
 	})
+}
+
+// srvSend: what the scripted server (or a stranger) sends to the client - a datagram, or bytes
+// on the one stream when the client speaks TURN over TCP.
+func (w *CliWorld) srvSend(from, to *net.UDPAddr, b []byte) {
+	if w.stream {
+		_, _ = w.srvConn.Write(b)
+		return
+	}
+	w.Net.SendUDP(from, to, b)
 }
 
 // ---- scripted server
@@ -353,10 +389,10 @@ func (w *CliWorld) onServerDatagram(d *Dgram) {
 		}
 		dd := delay + int64(c)*1000
 		if dd == 0 {
-			w.Net.SendUDP(w.SrvAddr, d.From, raw)
+			w.srvSend(w.SrvAddr, d.From, raw)
 		} else {
 			to := d.From
-			w.K.After(dd, fmt.Sprintf("srvresp:%s#%d.%d.%d", method, n, k, c), func() { w.Net.SendUDP(w.SrvAddr, to, raw) })
+			w.K.After(dd, fmt.Sprintf("srvresp:%s#%d.%d.%d", method, n, k, c), func() { w.srvSend(w.SrvAddr, to, raw) })
 		}
 	}
 }
@@ -523,7 +559,12 @@ func (w *CliWorld) finish() {
 		if cli != nil {
 			cli.Close()
 		}
-		_ = w.cliSock.Close()
+		if w.cliSock != nil {
+			_ = w.cliSock.Close()
+		}
+		if w.cliConn != nil {
+			_ = w.cliConn.Close()
+		}
 	})
 	w.srvSock.SetHandler(nil)
 	ss := w.srvSock
@@ -565,6 +606,9 @@ func rtoSchedule(rtoNS int64) (offs []int64, fail int64) {
 
 // checkTransactions: the C12 oracle, evaluated at idle points and at the end.
 func (w *CliWorld) checkTransactions(final bool) {
+	if w.stream {
+		return // the observer does not parse the stream: transactions are judged in the datagram plans
+	}
 	w.mu.Lock()
 	defer w.mu.Unlock()
 	if len(w.K.StallIntervals()) > 0 {
